@@ -272,7 +272,7 @@ class Compiled:
     # -------------------------------------------------------------- evaluation
     def ev(self, env):
         """same contract as term.ev(self.t, env): value, or raises T.Poison / T.Uneval"""
-        if self.fn is not None and (env.get("watch") is None or env.get("watch") is self.watch):
+        if self.fn is not None and (env.get("watch") is None or env.get("watch") is self.watch) and not env.get("daz"):
             try:
                 r = self.fn(env["args"], env.get("mem"), env.get("rm", "RN"), env)
                 if r is not U:
